@@ -28,6 +28,7 @@ META["text"] += " (R6, N) NonnegMean's constructor stores u, N, t, random_order 
 META["text"] += ' (R7, P) formula identities: fixed_alternative_mean == (N eta - S_{j-1})/(N - j + 1) (eta with replacement), optimal_comparison == its documented closed form; a clamp around the formula is accepted. They keep changes of these two estimators from hiding behind the open findings K2a/K2b.'
 META["text"] += ' R6 also: the default initial bet is the documented constant. (R8 = factor identity) the ranges speak about eta_j and lambda_j as they enter the published factor, in the finite and the infinite regime alike.'
 META["text"] += " (R9, N) no method keeps state between calls (see C01.R8). R6 also: the super-majority test is constructed with the assorter's own bound (the default eta is fixed from the construction-time u)."
+META["text"] += ' R5 also borrows the dtype lint (C12.R6). R6 also: the constructor keeps its positional protocol.'
 
 REL = nnm.REL
 
